@@ -10,11 +10,46 @@ import (
 	"strings"
 )
 
+// w64Ops renders Go `int` arithmetic as 64-bit two's-complement arithmetic: every `+ - * /` and unary
+// minus is wrapped in `Juniper.Facts.wrap64`, so a generated index/count expression overflows exactly
+// where the Go expression does (C19 F1: `len(s)+chunkSize-1`, `len(s)+n`, `idx+n`). Comparisons and
+// literals are those of `Int` (a wrapped value is compared as the signed number it denotes).
+var w64Ops = &Ops{
+	Neg: func(a string) string {
+		if strings.HasSuffix(a, " : Int)") && !strings.Contains(a[1:], "(") {
+			return "(-" + a + ")" // a negative constant
+		}
+		return "(wrap64 (-" + a + "))"
+	},
+	Bin: func(op, a, b string) (string, bool) {
+		switch op {
+		case "+", "-", "*":
+			return "(wrap64 (" + a + " " + op + " " + b + "))", true
+		case "/":
+			return "(wrap64 (Int.tdiv " + a + " " + b + "))", true // MinInt / -1 wraps
+		case "%":
+			return "(Int.tmod " + a + " " + b + ")", true
+		}
+		return "", false
+	},
+}
+
+// helpersFixedWidth makes every expression / whole-function site of module Helpers registered so far
+// (and without rendering of its own: `Abs` is BitVec w) use w64Ops.
+func helpersFixedWidth() {
+	for i := range allSites {
+		s := &allSites[i]
+		if s.Module == "Helpers" && (s.Kind == Expr || s.Kind == Func) && s.Ops == nil {
+			s.Ops = w64Ops
+		}
+	}
+}
+
 // sliceBound emits the low/high bound of the k-th slice expression `x[lo:hi]` (pre-order, whole
 // function, x = given text) as an Int definition. An absent low bound is 0, an absent high bound is
 // the Lean term `absentHi` (normally the parameter standing for len(x)).
 func sliceBound(mod, pkg, fn, name, x string, k int, part string, ps []Param, vars map[string]string, absentHi string) Site {
-	return Site{Module: mod, Pkg: pkg, Func: fn, Name: name, Kind: Custom, Params: ps, Vars: vars,
+	return Site{Module: mod, Pkg: pkg, Func: fn, Name: name, Kind: Custom, Params: ps, Vars: vars, Ops: w64Ops,
 		Custom: func(c *Ctx, s *Site) (string, error) {
 			fd, err := c.FindFunc(pkg, fn)
 			if err != nil {
@@ -148,11 +183,16 @@ func init() {
 		// Chunk
 		ex(xs, "Chunk", "chunkPanics", "if[0].cond", "Bool", I("chunkSize"), map[string]string{"chunkSize": "chunkSize"}),
 		present(xs, "Chunk", "chunkGuardPanics", "if[0].body", `panic("xslices.Chunk: chunkSize must be positive")`),
-		ex(xs, "Chunk", "chunkCount", "call[make][0].arg[1]", "Int", I("len", "chunkSize"), with(lenS, "chunkSize", "chunkSize")),
+		// chunk count: `n := 0; if len(s) > 0 { n = (len(s)-1)/chunkSize + 1 }; make([][]T, n)`
+		ex(xs, "Chunk", "chunkCountEmpty", "assign[n][0].rhs", "Int", nil, nil),
+		ex(xs, "Chunk", "chunkNonEmpty", "if[1].cond", "Bool", I("len"), lenS),
+		ex(xs, "Chunk", "chunkCountNonEmpty", "if[1].body/assign[n][0].rhs", "Int", I("len", "chunkSize"), with(lenS, "chunkSize", "chunkSize")),
+		ex(xs, "Chunk", "chunkMake", "call[make][0].arg[1]", "Int", I("n"), map[string]string{"n": "n"}),
+		// chunk i: `start := i * chunkSize; end := len(s); if len(s)-start > chunkSize { end = start + chunkSize }`
 		ex(xs, "Chunk", "chunkStart", "assign[start][0].rhs", "Int", I("i", "chunkSize"), map[string]string{"i": "i", "chunkSize": "chunkSize"}),
-		ex(xs, "Chunk", "chunkEnd", "assign[end][0].rhs", "Int", I("i", "chunkSize"), map[string]string{"i": "i", "chunkSize": "chunkSize"}),
-		ex(xs, "Chunk", "chunkClip", "range[0].body/if[0].cond", "Bool", I("end_", "len"), with(lenS, "end", "end_")),
-		ex(xs, "Chunk", "chunkClipVal", "range[0].body/if[0].body/assign[end][0].rhs", "Int", I("len"), lenS),
+		ex(xs, "Chunk", "chunkEndLast", "assign[end][0].rhs", "Int", I("len"), lenS),
+		ex(xs, "Chunk", "chunkFull", "range[0].body/if[0].cond", "Bool", I("len", "start", "chunkSize"), with(lenS, "start", "start", "chunkSize", "chunkSize")),
+		ex(xs, "Chunk", "chunkEndFull", "range[0].body/if[0].body/assign[end][0].rhs", "Int", I("start", "chunkSize"), map[string]string{"start": "start", "chunkSize": "chunkSize"}),
 		sliceBound(mod, xs, "Chunk", "chunkLo", "s", 0, "lo", I("start", "end_"), map[string]string{"start": "start", "end": "end_"}, ""),
 		sliceBound(mod, xs, "Chunk", "chunkHi", "s", 0, "hi", I("start", "end_"), map[string]string{"start": "start", "end": "end_"}, ""),
 
@@ -490,7 +530,7 @@ func wrapperSite(mod, pkg, fn, name, sig string, vars, callees map[string]string
 					}
 					switch n.Op {
 					case token.ADD, token.SUB, token.MUL:
-						return "(" + a + " " + n.Op.String() + " " + b + ")", nil
+						return "(wrap64 (" + a + " " + n.Op.String() + " " + b + "))", nil // Go int: 64-bit wrap-around
 					case token.EQL:
 						return "(" + a + " == " + b + ")", nil
 					case token.NEQ:
@@ -808,7 +848,34 @@ func init() {
 		stmts("xmaps", "Set.Remove", "setRemoveBody"),
 		stmts("xmaps", "Set.Contains", "setContainsBody"),
 		body("xmaps", "SetFromSlice", "sfsBody", "range[0].body"),
+		// xrand: the package-level functions (what users call) delegate to the r* variants with the default
+		// source, whose three methods are math/rand's top-level functions (C19 F2)
+		w("xmath/xrand", "Sample", "pkgSampleW", "{D R : Type} (rSample : D → Int → Int → R) (dflt : D) (n k : Int) : R",
+			map[string]string{"n": "n", "k": "k", "defaultRand{}": "dflt"}, map[string]string{"rSample": "rSample"}),
+		w("xmath/xrand", "SampleSlice", "pkgSampleSliceW", "{D A R : Type} (rSampleSlice : D → A → Int → R) (dflt : D) (a : A) (k : Int) : R",
+			map[string]string{"a": "a", "k": "k", "defaultRand{}": "dflt"}, map[string]string{"rSampleSlice": "rSampleSlice"}),
+		w("xmath/xrand", "SampleIterator", "pkgSampleIteratorW", "{D I R : Type} (rSampleIterator : D → I → Int → R) (dflt : D) (iter : I) (k : Int) : R",
+			map[string]string{"iter": "iter", "k": "k", "defaultRand{}": "dflt"}, map[string]string{"rSampleIterator": "rSampleIterator"}),
+		w("xmath/xrand", "SampleStream", "pkgSampleStreamW", "{C D S R : Type} (rSampleStream : C → D → S → Int → R) (dflt : D) (ctx : C) (s : S) (k : Int) : R",
+			map[string]string{"ctx": "ctx", "s": "s", "k": "k", "defaultRand{}": "dflt"}, map[string]string{"rSampleStream": "rSampleStream"}),
+		w("xmath/xrand", "Shuffle", "pkgShuffleW", "{D A R : Type} (rShuffle : D → A → R) (dflt : D) (a : A) : R",
+			map[string]string{"a": "a", "defaultRand{}": "dflt"}, map[string]string{"rShuffle": "rShuffle"}),
+		w("xmath/xrand", "RSample", "expRSampleW", "{D R : Type} (rSample : D → Int → Int → R) (r : D) (n k : Int) : R",
+			id("r", "n", "k"), map[string]string{"rSample": "rSample"}),
+		w("xmath/xrand", "RSampleSlice", "expRSampleSliceW", "{D A R : Type} (rSampleSlice : D → A → Int → R) (r : D) (a : A) (k : Int) : R",
+			id("r", "a", "k"), map[string]string{"rSampleSlice": "rSampleSlice"}),
+		w("xmath/xrand", "RSampleIterator", "expRSampleIteratorW", "{D I R : Type} (rSampleIterator : D → I → Int → R) (r : D) (iter : I) (k : Int) : R",
+			id("r", "iter", "k"), map[string]string{"rSampleIterator": "rSampleIterator"}),
+		w("xmath/xrand", "RSampleStream", "expRSampleStreamW", "{C D S R : Type} (rSampleStream : C → D → S → Int → R) (r : D) (ctx : C) (s : S) (k : Int) : R",
+			id("ctx", "r", "s", "k"), map[string]string{"rSampleStream": "rSampleStream"}),
+		w("xmath/xrand", "RShuffle", "expRShuffleW", "{D A R : Type} (rShuffle : D → A → R) (r : D) (a : A) : R",
+			id("r", "a"), map[string]string{"rShuffle": "rShuffle"}),
+		w("xmath/xrand", "defaultRand.Float64", "dfltFloat64W", "{R : Type} (randFloat64 : R) : R", nil, map[string]string{"rand.Float64": "randFloat64"}),
+		w("xmath/xrand", "defaultRand.Intn", "dfltIntnW", "{R : Type} (randIntn : Int → R) (n : Int) : R", id("n"), map[string]string{"rand.Intn": "randIntn"}),
+		w("xmath/xrand", "defaultRand.Shuffle", "dfltShuffleW", "{S R : Type} (randShuffle : Int → S → R) (n : Int) (swap : S) : R", id("n", "swap"),
+			map[string]string{"rand.Shuffle": "randShuffle"}),
 		w("xmath", "Min", "minW", "{T : Type} (builtinMin : T → T → T) (a b : T) : T", id("a", "b"), map[string]string{"min": "builtinMin"}),
 		w("xmath", "Max", "maxW", "{T : Type} (builtinMax : T → T → T) (a b : T) : T", id("a", "b"), map[string]string{"max": "builtinMax"}),
 	)
+	helpersFixedWidth()
 }
